@@ -1,5 +1,8 @@
 import CTM.Drive.Util
+import CTM.Drive.Tree
+import CTM.Drive.Markers
 import CTM.Model.Stats
+import CTM.Model.StageFiles
 open Lean
 
 namespace CTM.Drive.Stats
@@ -48,8 +51,60 @@ def jAgg (a : Agg) : Json :=
   jObj [("n", jNat a.n), ("mean", jList jRat a.mean), ("var", jList jRat a.var),
         ("gt0", jNats a.gt0), ("gt1", jNats a.gt1), ("ge1", jNats a.ge1)]
 
+/-! stage files (C18 names): file = {clusterToRow, colNames, data, tree}, matrix = {cellIds, geneIds, data} -/
+
+def parseStatsFile (j : Json) : R StageFiles.StatsFile := do
+  let c2r ← parseTable (← field j "clusterToRow")
+  let cols ← natList (← field j "colNames")
+  let data ← parseBuffer (← field j "data")
+  let t ← Tree.parseTree (← field j "tree")
+  return { clusterToRow := c2r, colNames := cols, data := data, tree := t }
+
+def parseMatrix (j : Json) : R StageFiles.Matrix := do
+  return { cellIds := ← natList (← field j "cellIds"), geneIds := ← natList (← field j "geneIds"),
+           data := ← asList ratList (← field j "data") }
+
+def jMatrix (m : StageFiles.Matrix) : Json :=
+  jObj [("cellIds", jNats m.cellIds), ("geneIds", jNats m.geneIds),
+        ("data", jList (jList jRat) m.data)]
+
+def jSE {α} (f : α → Json) : Except StageFiles.SErr α → Json
+  | .ok a => jObj [("ok", f a)]
+  | .error e => jObj [("err", jStr e.name)]
+
+def jRefFile (r : StageFiles.RefFile) : Json :=
+  jObj [("geneNames", jNats r.geneNames), ("nPairs", jNat r.nPairs),
+        ("pairToIdx", jList (fun e => Json.arr #[jNat e.1.1, jNat e.1.2, jNat e.2]) r.pairToIdx)]
+
 def handle : Handler := fun op inp =>
   match op with
+  | "stats.leafMeans" => some do
+      let f ← parseStatsFile (← field inp "file")
+      return jSE jMatrix (StageFiles.leafMeans f)
+  | "stats.refFile" => some do
+      let leaves ← natList (← field inp "leaves")
+      let names ← natList (← field inp "geneNames")
+      return jRefFile (StageFiles.prepOutput leaves names)
+  | "stats.taxonomyIdx" => some do
+      let t ← Tree.parseTree (← field inp "tree")
+      let names ← natList (← field inp "geneNames")
+      let parent ← Markers.parseKey (fieldD inp "parent" Json.null)
+      return jSE jNats (StageFiles.taxonomyIdx (StageFiles.prepOutput (StageFiles.leavesOf t) names) t parent)
+  | "stats.markerTable" => some do
+      let names ← natList (← field inp "geneNames")
+      let chosen ← asList (asPair Markers.parseKey natList) (← field inp "chosen")
+      let r : StageFiles.RefFile := { geneNames := names, pairToIdx := [], nPairs := 0 }
+      return jSE Markers.jLookup (StageFiles.markerTable r (chosen.map (·.1))
+        (fun p => (chosen.lookup p).getD []))
+  | "stats.mapperNode" => some do
+      let f ← parseStatsFile (← field inp "file")
+      let lk ← Markers.parseLookup (← field inp "lookup")
+      let q ← parseMatrix (← field inp "query")
+      let m ← asNat (← field inp "m")
+      let parent ← Markers.parseKey (fieldD inp "parent" Json.null)
+      return jSE (fun (nd : StageFiles.NodeData) =>
+        jObj [("query", jMatrix nd.query), ("reference", jMatrix nd.reference)])
+        (StageFiles.mapperNode f lk q m parent)
   | "stats.precompute" => some do
       let nC ← asNat (← field inp "nClusters")
       let g ← asNat (← field inp "g")
